@@ -115,7 +115,29 @@ def r14c(run):
     f = run.repo.func(TR, "TypeTransformer.to_datetime")
     fa = analysis(f)
     zs = [(n, c) for n, c in fa.all_calls() if call_attr(c) == "strptime" and "%z" in unparse(c)]
-    run.floor("R14c", "UTC-offset parse attempts (%z) in to_datetime", len(zs), 1)
+    manual = [(n, c) for n, c in fa.all_calls() if call_attr(c) == "timezone" and c.args
+              and isinstance(c.args[0], ast.Call) and call_attr(c.args[0]) == "timedelta"]
+    run.floor("R14c", "UTC-offset parses (%z attempts or hand-built offsets) in to_datetime", len(zs) + len(manual), 1)
+    for n, c in manual:
+        td = c.args[0]
+        comps = [k.arg for k in td.keywords if k.arg in ("hours", "minutes", "seconds")]
+        # a hand-built offset: one sign for all components?  accept `sign * timedelta(...)` / a sign factor per component
+        signed_whole = False
+        for sub in walk_shallow(n.ast):
+            if isinstance(sub, ast.BinOp) and isinstance(sub.op, ast.Mult) and (sub.left is td or sub.right is td):
+                signed_whole = True
+            if isinstance(sub, ast.UnaryOp) and isinstance(sub.op, ast.USub) and sub.operand is td:
+                signed_whole = True
+        pats = [x.value for m in fa.cfg.nodes if m.ast is not None for x in ast.walk(m.ast)
+                if isinstance(x, ast.Constant) and isinstance(x.value, str) and "[+-]" in x.value.replace("[-+]", "[+-]")]
+        sign_in_component = any(re.search(r"\(\[[+-]{2}\]\\d", p_.replace("[-+]", "[+-]")) for p_ in pats)
+        ok = len(comps) <= 1 or signed_whole or not sign_in_component
+        run.check("R14c", f, "a hand-built UTC offset applies its sign to every component", ok,
+                  construct="offset sign bound to the hours only",
+                  message=f"`{unparse(c)[:70]}` builds the offset from separately captured groups; the sign is captured "
+                          f"inside the hours group ({[p_[:40] for p_ in pats]}) and the other components are added unsigned",
+                  necessity="'-03:30' is read back as -02:30 (hours -3, minutes +30): datetimes in zones west of UTC with "
+                            "a fractional-hour offset do not round-trip", node=c)
 
     def sign_literals(e):
         return [s.value for s in ast.walk(e) if isinstance(s, ast.Constant) and isinstance(s.value, str)
@@ -272,12 +294,24 @@ def r14e(run):
             srcs = [o.node for o in prov(fa).of_name(r, v.id) if o.kind == "call"]
         elif isinstance(v, ast.Call):
             srcs = [v]
-        parsed = [c for c in srcs if call_attr(c) in ("strptime", "fromisoformat", "fromtimestamp", "parse")
+        inner = []
+        for c0 in srcs:
+            inner += [x for x in ast.walk(c0) if isinstance(x, ast.Call)]
+        parsed = [c for c in inner if call_attr(c) in ("strptime", "fromisoformat", "fromtimestamp", "parse")
                   and any(isinstance(a, ast.Name) and a.id == "data" for a in c.args)]
         if not parsed:
             continue
         total += 1
         ok = False
+        # `<parse>(data, ...).replace(tzinfo=E)` with E chosen by the flag
+        if isinstance(v, ast.Call) and call_attr(v) == "replace" and kwarg(v, "tzinfo") is not None:
+            e = kwarg(v, "tzinfo")
+            exprs = [e]
+            if isinstance(e, ast.Name):
+                exprs += [o.at.ast.value for o in prov(fa).of_name(r, e.id)
+                          if o.at is not None and isinstance(o.at.ast, ast.Assign)]
+            ok = any(isinstance(x, ast.IfExp) and unparse(x.test) == "is_utc" and "utc" in unparse(x.body)
+                     for ex in exprs for x in ast.walk(ex))
         if isinstance(v, ast.Name):
             # some definition of v reaching the return re-attaches UTC under the flag
             for d in fa.rd.defs_of(r, v.id):
@@ -290,7 +324,7 @@ def r14e(run):
                           f"stripped without applying `is_utc`",
                   necessity="a value encoded with a UTC marker comes back naive: the parsed instance is not equal to the "
                             "original (aware vs naive)", node=r.ast)
-    run.floor("R14e", "returns parsed from the stripped text", total, 2)
+    run.floor("R14e", "returns parsed from the stripped text", total, 1)
 
 
 def r14f(run):
@@ -328,8 +362,27 @@ def r14f(run):
                             "0.1000000000000000055511151231257827..., not Decimal('0.1')", node=n.ast)
 
 
+def r14g(run):
+    """the JSON text of a data class is decoded with the standard number / object decoding"""
+    T = run.repo.cls(TR, "TypeTransformer")
+    allowed = {"strict"}
+    total = 0
+    for f in T.methods.values():
+        for c in walk_shallow(f.node):
+            if isinstance(c, ast.Call) and unparse(c.func) in ("json.loads", "json.load"):
+                total += 1
+                extra = sorted(k.arg for k in c.keywords if k.arg not in allowed)
+                run.check("R14g", f, f"`{unparse(c)[:50]}` uses the default JSON decoding", not extra,
+                          construct=f"json decoding customised: {extra}",
+                          message=f"{f.qualname}: `{unparse(c)[:80]}` customises the decoder with {extra}",
+                          necessity="parse_float=Decimal (or an object hook) changes the Python type of values in loosely "
+                                    "typed positions (dict, list, Any): 0.1 comes back as Decimal('0.1') and the "
+                                    "re-parsed instance is not equal to the original", node=c)
+    run.floor("R14g", "json.loads calls in the converters", total, 2)
+
+
 def check(run):
-    run.rules_run += ["R14a", "R14b", "R14c", "R14d", "R14e", "R14f"]
+    run.rules_run += ["R14a", "R14b", "R14c", "R14d", "R14e", "R14f", "R14g"]
     run.explain("Static agreement between the encoder table (utils/encode.py) and the converter table "
                 "(utils/transform.py): coverage of the C14 domain on both sides, JSON-native and total encoders, sign "
                 "symmetry of the UTC-offset gate, the duration sign applied to the whole value, the UTC marker "
@@ -341,3 +394,4 @@ def check(run):
     r14d(run)
     r14e(run)
     r14f(run)
+    r14g(run)
